@@ -523,7 +523,7 @@ macro_rules! op_assign {
             match &subs[..] {
               [Subscript::Formula(ix)] => {
                 fxn_input.push(source.clone());
-                let ixes = subscript_formula_ix(&subs[0], env, p)?;
+                let ixes = subscript_formula_ix(&subs[0], sink, None, env, p)?;
                 let shape = ixes.shape();
                 fxn_input.push(ixes);
                 match shape[..] {
@@ -535,7 +535,7 @@ macro_rules! op_assign {
               },
               [Subscript::Formula(ix1),Subscript::All] => {
                 fxn_input.push(source.clone());
-                let ix = subscript_formula_ix(&subs[0], env, p)?;
+                let ix = subscript_formula_ix(&subs[0], sink, Some(0), env, p)?;
                 let shape = ix.shape();
                 fxn_input.push(ix);
                 fxn_input.push(Value::IndexAll);
@@ -618,7 +618,7 @@ pub fn subscript_ref(sbscrpt: &Subscript, sink: &Value, source: &Value, env: Opt
         #[cfg(feature = "subscript_formula")]
         [Subscript::Formula(ix)] => {
           fxn_input.push(source.clone());
-          let ixes = subscript_formula_ix(&subs[0], env, p)?;
+          let ixes = subscript_formula_ix(&subs[0], sink, None, env, p)?;
           let shape = ixes.shape();
           fxn_input.push(ixes);
           match shape[..] {
@@ -648,8 +648,8 @@ pub fn subscript_ref(sbscrpt: &Subscript, sink: &Value, source: &Value, env: Opt
         #[cfg(feature = "subscript_formula")]
         [Subscript::Formula(ix1),Subscript::Formula(ix2)] => {
           fxn_input.push(source.clone());
-          let result1 = subscript_formula_ix(&subs[0], env, p)?;
-          let result2 = subscript_formula_ix(&subs[1], env, p)?;
+          let result1 = subscript_formula_ix(&subs[0], sink, Some(0), env, p)?;
+          let result2 = subscript_formula_ix(&subs[1], sink, Some(1), env, p)?;
           let shape1 = result1.shape();
           let shape2 = result2.shape();
           fxn_input.push(result1);
@@ -679,7 +679,7 @@ pub fn subscript_ref(sbscrpt: &Subscript, sink: &Value, source: &Value, env: Opt
         [Subscript::All,Subscript::Formula(ix2)] => {
           fxn_input.push(source.clone());
           fxn_input.push(Value::IndexAll);
-          let ix = subscript_formula_ix(&subs[1], env, p)?;
+          let ix = subscript_formula_ix(&subs[1], sink, Some(1), env, p)?;
           let shape = ix.shape();
           fxn_input.push(ix);
           match shape[..] {
@@ -695,7 +695,7 @@ pub fn subscript_ref(sbscrpt: &Subscript, sink: &Value, source: &Value, env: Opt
         #[cfg(feature = "subscript_formula")]
         [Subscript::Formula(ix1),Subscript::All] => {
           fxn_input.push(source.clone());
-          let ix = subscript_formula_ix(&subs[0], env, p)?;
+          let ix = subscript_formula_ix(&subs[0], sink, Some(0), env, p)?;
           let shape = ix.shape();
           fxn_input.push(ix);
           fxn_input.push(Value::IndexAll);
@@ -714,7 +714,7 @@ pub fn subscript_ref(sbscrpt: &Subscript, sink: &Value, source: &Value, env: Opt
           fxn_input.push(source.clone());
           let result = subscript_range(&subs[0], env, p)?;
           fxn_input.push(result);
-          let result = subscript_formula_ix(&subs[1], env, p)?;
+          let result = subscript_formula_ix(&subs[1], sink, Some(1), env, p)?;
           let shape = result.shape();
           fxn_input.push(result);
           match &shape[..] {
@@ -730,7 +730,7 @@ pub fn subscript_ref(sbscrpt: &Subscript, sink: &Value, source: &Value, env: Opt
         #[cfg(all(feature = "subscript_formula", feature = "subscript_range"))]
         [Subscript::Formula(ix1),Subscript::Range(ix2)] => {
           fxn_input.push(source.clone());
-          let result = subscript_formula_ix(&subs[0], env, p)?;
+          let result = subscript_formula_ix(&subs[0], sink, Some(0), env, p)?;
           let shape = result.shape();
           fxn_input.push(result);
           let result = subscript_range(&subs[1], env, p)?;
